@@ -354,6 +354,9 @@ def search_text(text, abstract, rnd, trials=4):
     run_memmerge(f1, abstract)
     for t in range(trials):
         cd = bytes(rnd.randrange(1, 256) for _ in range([0, 40, 100, 300][t % 4]))
+        if t >= 2 and len(cd) >= 64:
+            # small first words: variable calldata / data offsets stay inside the calldata
+            cd = (4).to_bytes(32, "big") + (36).to_bytes(32, "big") + cd[64:]
         data = bytes(rnd.randrange(1, 256) for _ in range(300))
         mem0 = {}
         for b in (0, 100000, 200000, 300000):
@@ -407,6 +410,7 @@ def hand_family():
         both(f"{op}/store_between", [f"{op} 0, {sb}, 32", "mstore 16, 7", f"{op} 32, {sb + 32}, 32"])
         both(f"{op}/sha_between", [f"{op} 0, {sb}, 32", "%r = sha3 0, 64", f"{op} 32, {sb + 32}, 32", "sstore 1, %r"])
         both(f"{op}/waw_other_delta", [f"{op} 0, {sb}, 64", f"{op} 16, {sb + 100}, 8", f"{op} 64, {sb + 64}, 32"])
+        both(f"{op}/waw_lower", [f"{op} 8, {sb + 8}, 32", f"{op} 0, {sb + 200}, 16", f"{op} 40, {sb + 40}, 32"])
         both(f"{op}/var_offset", ["%p = calldataload 0", f"{op} %p, {sb}, 32", f"{op} 32, {sb + 32}, 32", f"{op} 64, {sb + 64}, 32"])
     # memmove hazards (mcopy only)
     both("mcopy/src_overlaps_earlier_dst", ["mcopy 100, 0, 32", "mcopy 132, 32, 32", "mcopy 164, 132, 32"])
@@ -658,7 +662,75 @@ def part_corpus(ctx, model_ok):
     return st["accepted"]
 
 
+def _gen(ctx):
+    from . import c14mm_copy
+    from .py2coq import Unsupported
+    try:
+        text, _ = c14mm_copy.gen_coq()
+    except Unsupported as e:
+        return str(e)
+    p = COQ / "C14MM" / "GenCopy.v"
+    if not p.exists() or p.read_text() != text:
+        p.write_text(text)
+    return None
+
+
+def part_kernel(ctx, model_ok):
+    """translator validation of the sliced `_Copy.can_merge` / `_Copy.merge`: Coq vs CPython on an interval grid, and the real
+    `_Copy` objects vs the sliced functions"""
+    from . import c14mm_copy
+    from vyper.venom.memory_location import MemoryLocation
+    from vyper.venom.passes.memmerging import _Copy
+    mod, _ = c14mm_copy.load_module()
+    vals = [0, 1, 31, 32, 33, 64, 96, 100]
+    lens = [0, 1, 31, 32, 33, 64]
+    cases = [(a, b, l1, c, d, l2) for a in (0, 100) for b in vals[:5] for l1 in lens for c in (0, 100, 132) for d in vals for l2 in (0, 32, 33)]
+    n = bad = 0
+    py = []
+    for (ss, sd, sl, os_, od, ol) in cases:
+        cm = mod.can_merge(ss, sd, sl, os_, od, ol)
+        try:
+            ml = mod.merge_len(ss, sd, sl, os_, od, ol)
+        except AssertionError:
+            ml = -1
+        # the real objects
+        s_ = _Copy(MemoryLocation(sd, sl), MemoryLocation(ss, sl), [])
+        o_ = _Copy(MemoryLocation(od, ol), MemoryLocation(os_, ol), [])
+        rcm = s_.can_merge(o_)
+        try:
+            s_.merge(o_)
+            rml = s_.length
+        except AssertionError:
+            rml = -1
+        n += 1
+        if (bool(rcm), rml) != (bool(cm), ml):
+            bad += 1
+            if bad <= 2:
+                ctx.violation("correspondence-broken", "sliced _Copy.can_merge/merge differ from the real methods",
+                              {"self": [ss, sd, sl], "other": [os_, od, ol], "real": [bool(rcm), rml], "sliced": [bool(cm), ml]})
+        py += [1 if cm else 0, ml]
+    if model_ok and (COQ / "C14MM" / "GenCopy.vo").exists():
+        imports = ("From Verif Require Import Base.PyInt C14MM.GenCopy.\nOpen Scope Z_scope.\n"
+                   "Definition eb (r : res bool) : Z := match r with Ok true => 1 | Ok false => 0 | Err _ => 2 end.\n"
+                   "Definition ez (r : res Z) : Z := match r with Ok v => v | Err _ => -1 end.\n"
+                   "Definition one (t : Z * Z * Z * Z * Z * Z) : list Z := match t with (a, b, c, d, e, f) => [eb (can_merge a b c d e f); ez (merge_len a b c d e f)] end.\n")
+        chunks = [cases[i:i + 800] for i in range(0, len(cases), 800)]
+        exprs = ["flat_map one [" + "; ".join("(%d, %d, %d, %d, %d, %d)" % c for c in ch) + "]" for ch in chunks]
+        outs = coqrun.eval_zlists(imports, exprs, "c14mm_kernel", shard=max(1, len(exprs) // 4), timeout=300)
+        flat = [x for o in outs for x in o]
+        if flat != py:
+            k = next((i for i, (a, b) in enumerate(zip(flat, py)) if a != b), 0)
+            ctx.violation("correspondence-broken", "py2coq model of _Copy.can_merge/merge (GenCopy.v) disagrees with CPython",
+                          {"case": list(cases[k // 2]), "coq": flat[k:k + 2], "python": py[k:k + 2]})
+        n += len(cases)
+    ctx.corr["memmerge_copy_kernel_cases"] = n
+    return n
+
+
 def _build(ctx):
+    err = _gen(ctx)
+    if err is not None:
+        return {"ok": False, "gen_err": err, "file": "C14MM/GenCopy.v", "failed_lemma": None, "out": err}
     files = [f for f in MODEL_FILES if (COQ / f).exists()]
     b = ctx.coq_build_cached(files, timeout=600)
     if not b["ok"]:
@@ -679,12 +751,17 @@ def part_memmerge(ctx):
     nviol = len(ctx.violations)
     total = 0
     t0 = time.time()
+    total += part_kernel(ctx, model_ok)
+    ctx.log(f"C14MM copy kernel: {time.time() - t0:.1f}s")
+    t0 = time.time()
     total += part_families(ctx, model_ok)
     ctx.log(f"C14MM families: {time.time() - t0:.1f}s")
     t0 = time.time()
     total += part_corpus(ctx, model_ok)
     ctx.log(f"C14MM corpus invocations: {time.time() - t0:.1f}s")
-    if not b["ok"] and len(ctx.violations) == nviol:
+    if not b["ok"] and len(ctx.violations) == nviol and b.get("gen_err"):
+        ctx.violation("translator-rejected", "cannot slice/translate _Copy.can_merge/_Copy.merge: " + b["gen_err"], {"error": b["gen_err"]})
+    elif not b["ok"] and len(ctx.violations) == nviol:
         ctx.violation("theorem-broken", f"{b.get('failed_lemma')} in {b['file']}",
                       {"theorem": b.get("failed_lemma"), "file": b["file"], "coq_output": b["out"][-1500:]})
     ctx.trusted += ["C14MM: exporter tools/vlib/c14mm_part.py:MemExport/Resolver (block -> memory program; addresses resolved by an own "
